@@ -204,6 +204,16 @@ def configs(tier, seed):
                                                 scratch=scratch, mode=mode, rs=rs_name, T=Tc, W=2, F=1, seed=seed,
                                                 use_mra=(typ == "promotion" and i % 2 == 0), perms={str(levels[0]): p1},
                                                 max_states=1500 if tier == "quick" else 8000))
+    # three brackets over a shared rung system with three levels: a paused trial is promoted while a bracket is sampled whose
+    # own first milestone lies above the trial's next rung (pending evaluations are registered for the level it really runs to)
+    for data in ("rungs", "all"):
+        for myopic in (False, True):
+            if myopic and data == "rungs":
+                continue
+            for mode in ("min", "max") if tier == "thorough" else ("min",):
+                out.append(dict(sched="hb", type="promotion", searcher="bayesopt", data=data, myopic=myopic, brackets=3,
+                                scratch=False, mode=mode, rs="lv125m6", T=3, W=2, F=0, seed=seed, use_mra=(data == "all"),
+                                perms={"1": (1, 0, 2)}, max_states=2500 if tier == "quick" else 8000))
     # long single-worker histories (several promotions per trial)
     for typ in ("stopping", "promotion"):
         for data in ("rungs", "all", "rungs_and_last"):
